@@ -168,6 +168,35 @@ def literal_modules(start, tier):
 '''
             mods.append(Module(f'm{n:04d}', f'`Default{form}` with $e:{frag} = `{expr}` forwarded by a user macro_rules (None-delimited group)', body, [h], sample=dict(type_definition=decl), functions=FUNCTIONS))
             n += 1
+    # wide shapes: 13 fields (positions >= 10 sort before 2 as strings), tuple / named / enum variant; every position has its own value
+    for shape in ('tuple', 'named', 'variant'):
+        for mix in (False, True):
+            if tier == 'quick' and shape == 'variant' and not mix:
+                continue
+            fl = []
+            for i in range(13):
+                if mix and i % 2 == 0:
+                    fl.append(('', f'K<{i}>', f'K({100 + i})'))
+                else:
+                    fl.append((f'#[educe(Default = {10 + i})] ', 'u8', str(10 + i)))
+            kdecl = 'pub struct K<const I: u8>(pub u8);\nimpl<const I: u8> PartialEq for K<I> { fn eq(&self, o: &Self) -> bool { self.0 == o.0 } }\nimpl<const I: u8> Default for K<I> { fn default() -> Self { K(100 + I) } }\n'
+            if shape == 'tuple':
+                decl = kdecl + '#[derive(Educe)]\n#[educe(Default)]\npub struct Ty(' + ', '.join(f'{a}pub {t}' for a, t, _ in fl) + ');\n'
+                acc = [f'd.{i}' for i in range(13)]
+                pre = ''
+            elif shape == 'named':
+                decl = kdecl + '#[derive(Educe)]\n#[educe(Default)]\npub struct Ty { ' + ', '.join(f'{a}pub f{i}: {t}' for i, (a, t, _) in enumerate(fl)) + ' }\n'
+                acc = [f'd.f{i}' for i in range(13)]
+                pre = ''
+            else:
+                decl = kdecl + '#[derive(Educe)]\n#[educe(Default)]\npub enum Ty { Alpha, #[educe(Default)] Beta(' + ', '.join(f'{a}{t}' for a, t, _ in fl) + ') }\n'
+                acc = [f'x{i}' for i in range(13)]
+                pre = '    let (' + ', '.join(acc) + ') = match d { Ty::Beta(' + ', '.join(acc) + ') => (' + ', '.join(acc) + '), _ => { assert!(false, "wrong default variant"); return; } };\n'
+            h = Harness('h_wide', unwind=4, covers=['reached'])
+            checks = ''.join(f'    assert!({acc[i]} == {w}, "field {i} of a 13-field {shape} did not get its own default");\n' for i, (_, _, w) in enumerate(fl))
+            body = decl + h.attrs() + 'pub fn h_wide() {\n    let d = <Ty as Default>::default();\n    kani::cover!(true, "reached");\n' + pre + checks + '}\n'
+            mods.append(Module(f'm{n:04d}', f'13-field {shape} ' + ('alternating Default-typed / expression fields' if mix else 'every field with its own expression'), body, [h], sample=dict(type_definition=decl), functions=FUNCTIONS))
+            n += 1
     # `new` with an explicit boolean: `new = false` / `new(false)` generate no `new()` (the user's own inherent `new` must not clash),
     # `new = true` / `new(true)` generate it
     for form in ['new = false', 'new(false)', 'new = true', 'new(true)']:
